@@ -163,7 +163,7 @@ func (ex *Exec) step(st *State, fr *Frame, in ssa.Instruction) (forks []*State, 
 		switch t := x.X.Type().Underlying().(type) {
 		case *types.Slice:
 			ex.safety(st, "index", x.Pos(), And(Le(IntLit(0), idx), Lt(idx, SLen(base))))
-			fr.regs[x] = ex.elemAddr(SBase(base), Add(SOff(base), idx), t.Elem())
+			fr.regs[x] = ex.elemAddr(SBase(base), EIdx(SOff(base), idx), t.Elem())
 		case *types.Pointer:
 			at := t.Elem().Underlying().(*types.Array)
 			ex.safety(st, "nil-deref", x.Pos(), Not(Eq(base, TNil)))
